@@ -4,8 +4,8 @@ use crate::run::*;
 use crate::util::*;
 use h264_reader::annexb::AnnexBReader;
 
-pub struct Oracle { run: Runner, full_nal: Vec<u8>, /// C19: what has been accepted since the last reset (id -> level_idc; id -> (sps id, l0 default))
-    sps_seen: std::collections::BTreeMap<u8, u8>, pps_seen: std::collections::BTreeMap<u8, (u8, u32)> }
+pub struct Oracle { run: Runner, full_nal: Vec<u8>, /// C19: what has been accepted since the last reset (id -> rendering of the parameter set)
+    sps_seen: std::collections::BTreeMap<u8, String>, pps_seen: std::collections::BTreeMap<u8, String> }
 
 /// Annex B segmentation of a whole stream followed by end of stream: bytes of each unit and an end marker `E`
 pub fn reference_segmentation(s: &[u8]) -> Vec<String> {
@@ -88,6 +88,15 @@ impl Oracle {
                     Err(_) => "ok".into() };
                 let _ = self.run.run_line(line); verdict
             }
+            ("C04", "nal") | ("C05", "nal") => {
+                // a complete parameter-set NAL, however chunked, parses exactly like its reference-un-escaped RBSP read from one plain buffer
+                let chunks = chunks_of(toks[1]); let all: Vec<u8> = chunks.concat();
+                let got = self.run.run_line(line);
+                if toks[2] == "1" && !all.is_empty() && matches!(all[0] & 0x1f, 7 | 8) && all[0] & 0x80 == 0 {
+                    if let Some(want) = self.run.nal_plain(&all) { if got != want { return format!("FAIL parameter-set NAL in {} chunk(s) gave [{}] but its RBSP read from a plain buffer gives [{}]", chunks.len(), &got[..got.len().min(300)], &want[..want.len().min(300)]); } }
+                }
+                "ok".into()
+            }
             ("C06", "nal") => {
                 // a complete slice NAL, however chunked, parses exactly like its RBSP (un-escaped by the reference routine of
                 // this harness) read from one contiguous buffer: same header, same position on the first bit of slice data
@@ -105,7 +114,7 @@ impl Oracle {
             ("C11", "pt") => self.c11_pt(&toks, line),
             ("C13", "derived") => self.c13(line),
             ("C16", "sps") | ("C16", "pps") | ("C16", "slice") => self.c16(&toks, line),
-            ("C09", "avcc") | ("C19", "avcc") => self.c09(toks.get(1).copied().unwrap_or(""), line),
+            ("C09", "avcc") | ("C19", "avcc") | ("C20", "avcc") => self.c09(toks.get(1).copied().unwrap_or(""), line),
             ("C12", "stream") => self.c12(&toks[1..], line),
             ("C17", "full") => { self.full_nal = unhex(toks.get(1).copied().unwrap_or("")); "ok".into() }
             ("C17", "nal") => self.c17(&toks, line),
@@ -113,17 +122,19 @@ impl Oracle {
             // the context as a last-writer-wins map over everything accepted since the last reset, kept here independently
             ("C19", "reset") => { self.sps_seen.clear(); self.pps_seen.clear(); let _ = self.run.run_line(line); "ok".into() }
             ("C19", "sps") => { let d = unhex(toks.get(1).copied().unwrap_or(""));
-                if let Ok(s) = h264_reader::nal::sps::SeqParameterSet::from_bits(h264_reader::rbsp::BitReader::new(&d[..])) { self.sps_seen.insert(s.seq_parameter_set_id.id(), s.level_idc); }
+                if let Ok(s) = h264_reader::nal::sps::SeqParameterSet::from_bits(h264_reader::rbsp::BitReader::new(&d[..])) { self.sps_seen.insert(s.seq_parameter_set_id.id(), format!("{:?}", s)); }
                 let _ = self.run.run_line(line); "ok".into() }
             ("C19", "pps") => { let d = unhex(toks.get(1).copied().unwrap_or(""));
-                if let Ok(p) = h264_reader::nal::pps::PicParameterSet::from_bits(&self.run.ctx, h264_reader::rbsp::BitReader::new(&d[..])) { self.pps_seen.insert(p.pic_parameter_set_id.id(), (p.seq_parameter_set_id.id(), p.num_ref_idx_l0_default_active_minus1)); }
+                if let Ok(p) = h264_reader::nal::pps::PicParameterSet::from_bits(&self.run.ctx, h264_reader::rbsp::BitReader::new(&d[..])) { self.pps_seen.insert(p.pic_parameter_set_id.id(), format!("{:?}", p)); }
                 let _ = self.run.run_line(line); "ok".into() }
             ("C19", "dump") => { let got = self.run.run_line(line);
-                let want = format!("sps=[{}] pps=[{}]", self.sps_seen.iter().map(|(i, l)| format!("{}:{}", i, l)).collect::<Vec<_>>().join(","), self.pps_seen.iter().map(|(i, (s, l))| format!("{}:{}:{}", i, s, l)).collect::<Vec<_>>().join(","));
-                if got == want { "ok".into() } else { format!("FAIL the context holds [{}] but the parameter sets accepted since the last reset are [{}]", got, want) } }
+                let want = format!("sps=[{}] pps=[{}]", self.sps_seen.values().cloned().collect::<Vec<_>>().join(";"), self.pps_seen.values().cloned().collect::<Vec<_>>().join(";"));
+                if got == want { "ok".into() } else { format!("FAIL the context holds [{}] but the parameter sets accepted since the last reset are [{}]", &got[..got.len().min(600)], &want[..want.len().min(600)]) } }
             ("C20", "derived") => self.c13(line),
             ("C10", "sei") => self.c10(&toks[1..], line),
             ("C20", _) | ("C13", "profile") | ("C13", "level") => self.c20(&toks),
+            // (a dump line has no input: what is allocated there is the harness's own rendering of the context)
+            ("C03", "dump") => { let o = self.run.run_line(line); if o == "PANIC" { "FAIL panic".into() } else { "ok".into() } }
             ("C03", _) => {
                 // (the constant covers the parameter-set tables: 256 slots of a PPS, 32 of an SPS - fixed, input-independent sizes)
                 // input size in bytes (hex digits / 2); the whole case execution (library + the harness's own parsing and
@@ -382,7 +393,7 @@ impl Oracle {
                 else if *op == "is" { format!("[{}]", sps.iter().map(|(i, t)| format!("{},{}", i, t)).collect::<Vec<_>>().join(";")) }
                 else if *op == "ip" { format!("[{}]", pps.iter().map(|(i, t)| format!("{},{}", i, t)).collect::<Vec<_>>().join(";")) }
                 else if let Some(x) = op.strip_prefix('s') { let v: Vec<u64> = x.split(':').map(|y| y.parse().unwrap()).collect(); if v[0] <= 31 { sps.insert(v[0], v[1]); "ok".to_string() } else { "rej".to_string() } }
-                else if let Some(x) = op.strip_prefix('p') { let v: Vec<u64> = x.split(':').map(|y| y.parse().unwrap()).collect(); if v[0] <= 255 && sps.contains_key(&v[1]) { pps.insert(v[0], v[2]); "ok".to_string() } else { "rej".to_string() } }
+                else if let Some(x) = op.strip_prefix('p') { let v: Vec<u64> = x.split(':').map(|y| y.parse().unwrap()).collect(); if v[0] <= 255 && v[1] <= 31 && v[2] <= 31 { pps.insert(v[0], v[2]); "ok".to_string() } else { "rej".to_string() } }
                 else { "bad".to_string() };
             if o != want { return format!("FAIL op {}: got {} expected {}", op, o, want); }
         }
@@ -498,7 +509,9 @@ impl Oracle {
         let mut k = 0usize;
         for u in &units {
             let ty = if u[0] & 0x80 != 0 { 255 } else { u[0] & 31 };
-            let want = alone.run_line(&format!("nal {} 1", hex(u))).replace(' ', "_");
+            // parsed alone: from the reference-un-escaped RBSP in one plain buffer when the unit is valid, through the library's own
+            // NAL reader otherwise
+            let want = match alone.nal_plain(u) { Some(w) => w, None => alone.run_line(&format!("nal {} 1", hex(u))) }.replace(' ', "_");
             if policy == "H" && (ty == 1 || ty == 5) {
                 // tried on every invocation: shown bytes are a prefix of the unit; the outcome is that of the complete NAL
                 // (C17) except for the position fields, which depend on how much was buffered
